@@ -86,6 +86,10 @@ const (
 	lNamedNx = "loop-named-call"  // defer namedPrint(tag, next(tag))
 	lRec     = "loop-recover"     // defer func() { report(recover()) }()
 	lMethod  = "loop-method"      // defer t.pm(tag, i)
+	lDelete  = "loop-delete"      // defer delete(m, i): a deferred builtin registered several times
+	lCopy    = "loop-copy"        // defer copy(dst[2*i:], src[i])
+	lClose   = "loop-close"       // defer close(chans[i])
+	lBin     = "loop-bin"         // defer fmt.Println(tag, i)
 )
 
 // Argument sources of deferred calls.
@@ -593,8 +597,8 @@ func (g *gen) genDefer(fn *Fn, st *Stmt, first bool) {
 	case fBPanic:
 		st.Val = explicitKinds[g.intn(len(explicitKinds), "explicit-kind")]
 	case fLoop:
-		loops := []string{lLitArg, lNamedI, lLitCap, lNamedNx, lRec, lMethod}
-		st.Loop = loops[g.pick("loop-form", 3, 3, 3, 2, 2, 2)]
+		loops := []string{lLitArg, lNamedI, lLitCap, lNamedNx, lRec, lMethod, lDelete, lCopy, lClose, lBin}
+		st.Loop = loops[g.pick("loop-form", 3, 3, 3, 2, 2, 2, 2, 2, 2, 2)]
 		st.LoopN = rapid.IntRange(1, 3).Draw(g.t, "loop-n")
 		if st.Loop == lLitCap && g.off[kLoopLit] {
 			g.excl(kLoopLit)
